@@ -3,6 +3,7 @@
 From Verif Require Import Base.Prelude Base.Str Interp.Sexp Interp.RunUnits Interp.RunUnitsF Interp.RunSchema Interp.RunCodegen Interp.RunFunction.
 From Verif Require Interp.RunStep Interp.RunFootprint.
 From Verif Require Import Interp.RunCompat Interp.RunLink.
+From Verif Require Import Interp.RunATPClient.
 Open Scope string_scope.
 
 Definition run_case (x : sexp) : sexp :=
@@ -17,6 +18,7 @@ Definition run_case (x : sexp) : sexp :=
         else if String.eqb fam "c13foot" then Verif.Interp.RunFootprint.run_foot_case payload
         else if String.eqb fam "c15" then run_c15_case payload
         else if String.eqb fam "c14" then run_c14_case payload
+        else if String.eqb fam "atpclient" then run_atpclient_case payload
         else bad "unknown family" in
       Ls [At "obs"; id; r]
   | _ => bad "not a case"
